@@ -174,20 +174,14 @@ theorem isSpace_of_isDigit {c : Char} (h : isDigit c = true) : isSpace c = false
 /-- the final release with the given numbers, as the version parser returns it for canonical text -/
 def finalV (rel : List Nat) : Version := ⟨0, rel, none, none, none, none, relText rel⟩
 
-/-- **`Version.parse` reads a printed final release back.** -/
-theorem parse_relText (a : Nat) (r : List Nat) : Version.parse (relText (a :: r)) = .ok (finalV (a :: r)) := by
+theorem relChars_dropSpaces (a : Nat) (r : List Nat) : dropSpaces (relChars (a :: r)) = relChars (a :: r) := by
   obtain ⟨c, cs, hD, hc⟩ := D_head_notSpace a
-  have hlow : (relText (a :: r)).toList.map lowerChar = relChars (a :: r) := by
-    rw [relText_toList]; exact map_lowerChar_plain _ (plain_relChars _)
-  have hne : (relText (a :: r)).isEmpty = false := by
-    have : (relText (a :: r)).toList ≠ [] := by
-      rw [relText_toList]; simp [relChars, hD]
-    simpa [String.isEmpty_iff, ← String.toList_eq_nil_iff] using this
-  unfold Version.parse
-  simp only [hlow]
-  have hds : dropSpaces (relChars (a :: r)) = relChars (a :: r) := by
-    simp [relChars, hD, dropSpaces, isSpace_of_isDigit hc]
-  rw [hds]
+  simp [relChars, hD, dropSpaces, isSpace_of_isDigit hc]
+
+/-- the body of the version pattern on a printed final release: everything is consumed -/
+theorem parseBody_relChars (t : String) (a : Nat) (r : List Nat) :
+    parseBody t (relChars (a :: r)) = some (⟨0, a :: r, none, none, none, none, t⟩, []) := by
+  obtain ⟨c, cs, hD, hc⟩ := D_head_notSpace a
   have hv : stripV (relChars (a :: r)) = relChars (a :: r) := by
     simp only [relChars, hD, List.cons_append, stripV]
     split
@@ -216,6 +210,19 @@ theorem parse_relText (a : Nat) (r : List Nat) : Version.parse (relText (a :: r)
   have e2 : parsePost [] = (none, []) := by decide
   have e3 : parseDev [] = (none, []) := by decide
   have e4 : parseLocal [] = (none, []) := by decide
-  simp [e1, e2, e3, e4, dropSpaces, hne, finalV]
+  simp [e1, e2, e3, e4]
+
+/-- **`Version.parse` reads a printed final release back.** -/
+theorem parse_relText (a : Nat) (r : List Nat) : Version.parse (relText (a :: r)) = .ok (finalV (a :: r)) := by
+  obtain ⟨c, cs, hD, hc⟩ := D_head_notSpace a
+  have hlow : (relText (a :: r)).toList.map lowerChar = relChars (a :: r) := by
+    rw [relText_toList]; exact map_lowerChar_plain _ (plain_relChars _)
+  have hne : (relText (a :: r)).isEmpty = false := by
+    have : (relText (a :: r)).toList ≠ [] := by
+      rw [relText_toList]; simp [relChars, hD]
+    simpa [String.isEmpty_iff, ← String.toList_eq_nil_iff] using this
+  unfold Version.parse
+  simp only [hlow, relChars_dropSpaces, parseBody_relChars]
+  simp [dropSpaces, hne, finalV]
 
 end Poetry
